@@ -24,6 +24,10 @@ type Mutant struct {
 	// Resigned: the proposer signature was made again after the corruption (so it is valid and an inner
 	// rule is what fails). False for the mutants that are about the block signature itself.
 	Resigned bool
+	// Healed: the real code's block processing (run without signature/state-root validation) did NOT object to
+	// the corruption; the state root was then set to what it produced and the block re-signed, so the fully
+	// validated transition will accept this mutant. For a must-reject mutant that is a finding in itself.
+	Healed bool
 	// Unclassified: validity is not known by construction (byte-level mutants); neither "must reject" nor
 	// "must accept" may be concluded from the mutant alone.
 	Unclassified bool
@@ -85,10 +89,39 @@ func (m *mutator) add(label, rule string, resign bool, f func(b *SignedBlock, bo
 	if !f(b, b.Body()) {
 		return
 	}
+	healed := false
 	if resign {
+		healed = m.heal(b)
 		m.c.SignBlock(b, m.st)
 	}
-	m.out = append(m.out, Mutant{Label: label, Rule: rule, Resigned: resign, Block: b})
+	m.out = append(m.out, Mutant{Label: label, Rule: rule, Resigned: resign, Healed: healed, Block: b})
+}
+
+// heal runs the real transition WITHOUT result validation on the corrupted block. If the real code's block
+// processing lets the corruption through, the block's state root is set to the state it produced, so that the
+// only thing wrong with the mutant is the corruption itself (otherwise a missing check in /repo would hide
+// behind "invalid state root"). On a correct tree this never succeeds for a must-reject mutant.
+func (m *mutator) heal(b *SignedBlock) (ok bool) {
+	if m.c.NoHealMutants {
+		return false
+	}
+	defer func() {
+		if recover() != nil {
+			ok = false
+		}
+	}()
+	st := WrapState(m.s.Pre)
+	epc, err := FreshEpc(m.c.Spec, st)
+	if err != nil {
+		return false
+	}
+	mark := m.c.Engine.Mark()
+	defer m.c.Engine.truncate(mark)
+	if err := Transition(context.Background(), m.c.Spec, epc, st, m.s.EnvelopeOf(b), false, m.s.repair); err != nil {
+		return false
+	}
+	*b.Header().StateRoot = st.HashTreeRoot(tree.GetHashFn())
+	return true
 }
 
 // addValid is add for mutants that stay valid: the state root is recomputed with the real transition and the
@@ -209,18 +242,27 @@ func (m *mutator) blockLevel() {
 		*b.Header().ParentRoot = lh.ParentRoot
 		return true
 	})
-	m.add("header.state_root:other", "block.state_root", true, func(b *SignedBlock, _ BodyRef) bool {
+	// (state-root mutants are signed here and not "healed": the stale root is the corruption)
+	m.add("header.state_root:other", "block.state_root", false, func(b *SignedBlock, _ BodyRef) bool {
 		*b.Header().StateRoot = otherRoot(*b.Header().StateRoot)
+		c.SignBlock(b, m.st)
 		return true
 	})
-	m.add("header.state_root:pre-state", "block.state_root", true, func(b *SignedBlock, _ BodyRef) bool {
+	m.add("header.state_root:pre-state", "block.state_root", false, func(b *SignedBlock, _ BodyRef) bool {
 		*b.Header().StateRoot = m.st.HashTreeRoot(tree.GetHashFn())
+		c.SignBlock(b, m.st)
 		return true
 	})
-	m.add("body.graffiti:changed(stale-state-root)", "block.state_root", true, func(b *SignedBlock, body BodyRef) bool {
+	m.add("body.graffiti:changed(stale-state-root)", "block.state_root", false, func(b *SignedBlock, body BodyRef) bool {
 		body.Graffiti[31] ^= 0x55
+		c.SignBlock(b, m.st)
 		return true
 	})
+	for i := len(m.out) - 3; i < len(m.out); i++ {
+		if i >= 0 {
+			m.out[i].Resigned = true
+		}
+	}
 }
 
 func (m *mutator) randao() {
